@@ -16,6 +16,8 @@ inductive Ev
   | data (l : List Byte)   -- return these bytes
   | pause                  -- sleep (≫ 10 ms) before going on
   | close                  -- call p.Close() before going on
+  | wait                   -- (callbacks held by the hook) wait until the timer callback has started
+  | go                     -- release the held callbacks and wait until they have returned
   deriving DecidableEq, Repr, Inhabited
 
 structure RdE where
@@ -24,91 +26,119 @@ structure RdE where
   pos : Nat := 0
   deriving Repr, Inhabited
 
-/-- bufio's fill loop over the script: also reports whether the read blocked across a pause and
-    whether Close() was called meanwhile. -/
-def fillLoopE : List Byte → List Ev → Bool → Bool → List Byte × List Ev × Bool × Bool
-  | buf, [], b, c => (buf, [], b, c)
-  | buf, ev :: rest, b, c =>
+/-- bufio's fill loop over the script: also reports the control markers crossed, in order
+    (a `Read` that meets a marker acts on it and goes on to the next element). -/
+def fillLoopE : List Byte → List Ev → List Ev → List Byte × List Ev × List Ev
+  | buf, [], m => (buf, [], m)
+  | buf, ev :: rest, m =>
     if buf.length < 4 && !fullRune buf then
       match ev with
-      | .data l => fillLoopE (buf ++ l) rest b c
-      | .pause => fillLoopE buf rest true c
-      | .close => fillLoopE buf rest b true
-    else (buf, ev :: rest, b, c)
+      | .data l => fillLoopE (buf ++ l) rest m
+      | e => fillLoopE buf rest (m ++ [e])
+    else (buf, ev :: rest, m)
 
-/-- A `Read` that returns no data loops inside bufio (`fill` retries): a marker followed by
-    further markers is crossed in the same call; nothing else to model. -/
-def RdE.fill (rd : RdE) : RdE × Bool × Bool :=
-  let (b, e, blocked, closed) := fillLoopE rd.buf rd.evs false false
-  ({ rd with buf := b, evs := e }, blocked, closed)
+def RdE.fill (rd : RdE) : RdE × List Ev :=
+  let (b, e, m) := fillLoopE rd.buf rd.evs []
+  ({ rd with buf := b, evs := e }, m)
 
 def RdE.consume (rd : RdE) (n : Nat) : RdE := { rd with buf := rd.buf.drop n, pos := rd.pos + n }
 
-def readRuneE (rd : RdE) : Option Rune × RdE × Bool × Bool :=
-  let (rd, blocked, closed) := rd.fill
+def readRuneE (rd : RdE) : Option Rune × RdE × List Ev :=
+  let (rd, m) := rd.fill
   match rd.buf with
-  | [] => (none, rd, blocked, closed)
+  | [] => (none, rd, m)
   | b0 :: _ =>
     let (r, sz) := decodeRune rd.buf
-    if r = runeError && (sz = 1 || !Gen.ParserTable.fallbackOnlyInvalid) then (some b0, rd.consume 1, blocked, closed)
-    else (some r, rd.consume sz, blocked, closed)
+    if r = runeError && (sz = 1 || !Gen.ParserTable.fallbackOnlyInvalid) then (some b0, rd.consume 1, m)
+    else (some r, rd.consume sz, m)
 
-def printLoopE (cl : Nat) : Nat → RdE → List Rune → Bool → List Rune × RdE × Bool
-  | 0, rd, acc, c => (acc, rd, c)
-  | fuel + 1, rd, acc, c =>
-    if rd.buf.isEmpty then (acc, rd, c)
+def printLoopE (cl : Nat) : Nat → RdE → List Rune → List Ev → List Rune × RdE × List Ev
+  | 0, rd, acc, m => (acc, rd, m)
+  | fuel + 1, rd, acc, m =>
+    if rd.buf.isEmpty then (acc, rd, m)
     else
-      let (rd, _, closed) := rd.fill
+      let (rd, m') := rd.fill
       let (r, sz) := decodeRune rd.buf
-      if acc.length + 1 > cl then (acc, rd, c || closed)
-      else printLoopE cl fuel (rd.consume sz) (acc ++ [r]) (c || closed)
+      if acc.length + 1 > cl then (acc, rd, m ++ m')
+      else printLoopE cl fuel (rd.consume sz) (acc ++ [r]) (m ++ m')
 
 def RdE.remaining (rd : RdE) : Nat :=
   rd.buf.length + (rd.evs.map fun | .data l => l.length | _ => 1).sum
 
-def deliverE (clusterAt : Nat → Nat) (startPos : Nat) : List Seq → RdE → Bool → List Item × RdE × Bool
-  | [], rd, c => ([], rd, c)
-  | .print r :: rest, rd, c =>
-    let (g, rd', c') := printLoopE (max 1 (clusterAt startPos)) (rd.remaining + 1) rd [r] c
-    let (items, rd'', c'') := deliverE clusterAt startPos rest rd' c'
-    (.print g :: items, rd'', c'')
-  | s :: rest, rd, c =>
-    let (items, rd', c') := deliverE clusterAt startPos rest rd c
-    (.seq s :: items, rd', c')
+def deliverE (clusterAt : Nat → Nat) (startPos : Nat) : List Seq → RdE → List Ev → List Item × RdE × List Ev
+  | [], rd, m => ([], rd, m)
+  | .print r :: rest, rd, m =>
+    let (g, rd', m') := printLoopE (max 1 (clusterAt startPos)) (rd.remaining + 1) rd [r] m
+    let (items, rd'', m'') := deliverE clusterAt startPos rest rd' m'
+    (.print g :: items, rd'', m'')
+  | s :: rest, rd, m =>
+    let (items, rd', m') := deliverE clusterAt startPos rest rd m
+    (.seq s :: items, rd', m')
 
-def applyLabel (T : Table) (clearsST : Bool) (s : Sys) (l : Label) : Sys × List Seq :=
-  match Sys.step T clearsST s l with
+def applyLabel (T : Table) (c : Cfg) (s : Sys) (l : Label) : Sys × List Seq :=
+  match Sys.step T c s l with
   | some r => r
   | none => (s, [.panic])          -- the scheduler chose a label that is not enabled: a bug of this file
 
-/-- The scheduler: returns the items delivered and the final system state. -/
-def runScript (T : Table) (clearsST : Bool) (clusterAt : Nat → Nat) : Nat → Sys → RdE → List Item × Sys
+/-- Run every started callback (out-of-date ones first). -/
+def runCallbacks (T : Table) (c : Cfg) : Nat → Sys → Sys × List Seq
+  | 0, s => (s, [])
+  | n + 1, s =>
+    if 0 < s.stale then
+      let (s1, o1) := applyLabel T c s (.cbRun false)
+      let (s2, o2) := runCallbacks T c n s1
+      (s2, o1 ++ o2)
+    else if s.fresh then applyLabel T c s (.cbRun true)
+    else (s, [])
+
+/-- Act on the control markers a read crossed, in order. -/
+def applyMarkers (T : Table) (c : Cfg) : List Ev → Sys → Sys × List Seq
+  | [], s => (s, [])
+  | e :: rest, s =>
+    let (s1, o1) :=
+      match e with
+      | .pause => if s.armed then applyLabel T c s .timerFire else (s, [])
+      | .close => applyLabel T c s .closeSig
+      | .wait => if s.armed then applyLabel T c s .timerExpire else (s, [])
+      | .go => runCallbacks T c (s.stale + 2) s
+      | .data _ => (s, [])
+    let (s2, o2) := applyMarkers T c rest s1
+    (s2, o1 ++ o2)
+
+/-- The scheduler: returns the items delivered and the final system state.  `lateRelease`: held
+    callbacks are released only after the channel has been closed. -/
+def runScript (T : Table) (c : Cfg) (clusterAt : Nat → Nat) (lateRelease : Bool) : Nat → Sys → RdE → List Item × Sys
   | 0, s, _ => ([.seq .panic], s)
   | fuel + 1, s, rd =>
+    let fin (s : Sys) : List Item × Sys :=
+      if lateRelease then let (s', o) := runCallbacks T c (s.stale + 2) s; (o.map .seq, s') else ([], s)
     if s.closeReq then
-      let (s1, o) := applyLabel T clearsST s .breakClose
-      (o.map .seq, s1)
+      let (s1, o) := applyLabel T c s .breakClose
+      let (o2, s2) := fin s1
+      (o.map .seq ++ o2, s2)
     else
-      let (s, _) := applyLabel T clearsST s .enterRead
+      let (s, _) := applyLabel T c s .enterRead
       let start := rd.pos
-      let (res, rd1, blocked, closed) := readRuneE rd
-      let (s, oT) := if blocked && s.armed then applyLabel T clearsST s .timerFire else (s, [])
-      let (s, _) := if closed then applyLabel T clearsST s .closeSig else (s, [])
+      let (res, rd1, marks) := readRuneE rd
+      let (s, oM) := applyMarkers T c marks s
       match res with
       | none =>
-        let (s1, o) := applyLabel T clearsST s .readEnd
-        ((oT ++ o).map .seq, s1)
+        let (s1, o) := applyLabel T c s .readEnd
+        let (o2, s2) := fin s1
+        ((oM ++ o).map .seq ++ o2, s2)
       | some r =>
-        let (s1, o) := applyLabel T clearsST s (.read r)
-        let (items, rd2, closed2) := deliverE clusterAt start o rd1 false
-        let (s1, _) := if closed2 then applyLabel T clearsST s1 .closeSig else (s1, [])
-        if s1.pc = .done then (oT.map .seq ++ items, s1)
+        let (s1, o) := applyLabel T c s (.read r)
+        let (items, rd2, marks2) := deliverE clusterAt start o rd1 []
+        let (s1, oM2) := applyMarkers T c marks2 s1
+        if s1.pc = .done then
+          let (o2, s2) := fin s1
+          (oM.map .seq ++ items ++ oM2.map .seq ++ o2, s2)
         else
-          let (rest, s2) := runScript T clearsST clusterAt fuel s1 rd2
-          (oT.map .seq ++ items ++ rest, s2)
+          let (rest, s2) := runScript T c clusterAt lateRelease fuel s1 rd2
+          (oM.map .seq ++ items ++ oM2.map .seq ++ rest, s2)
 
-def runEvents (T : Table) (clearsST : Bool) (clusterAt : Nat → Nat) (evs : List Ev) : List Item × Sys :=
+def runEvents (T : Table) (c : Cfg) (clusterAt : Nat → Nat) (lateRelease : Bool) (evs : List Ev) : List Item × Sys :=
   let rd : RdE := { evs := evs }
-  runScript T clearsST clusterAt (rd.remaining + 3) Sys.init rd
+  runScript T c clusterAt lateRelease (rd.remaining + 3) Sys.init rd
 
 end VaxisModel.Model.ParserRunIO
